@@ -461,7 +461,7 @@ pub fn prog_json(p: &Program) -> Value {
 
 fn tags_of(_p: &Program, _h: &[Op], f: &hist::Finding) -> Vec<String> {
     let mut t = vec![f.property.to_string()];
-    if f.what.contains("executed twice") {
+    if f.what.contains("to completion twice") {
         t.push("executed-twice".into());
     }
     if f.what.contains("re-executed although") {
